@@ -156,7 +156,7 @@ def fold_int_twin(a: int, b: int) -> bool:
 
 # ---------------------------------------------------------------------------------------------------------------
 # (2) representative values of every literal type, real printer, real evaluation of the printed text
-VALS = [0, 1, 2, 3, 10, 1024, 10 ** 16, True, False, 1.0, 3.0, 0.0, 0.5, 1e16, 1e999, 2j]
+VALS = [0, 1, 2, 3, 10, 1024, 10 ** 16, True, False, 1.0, 8j, 0.0, 0.5, 1e16, 1e999, 2j]
 N_VALS = len(VALS)
 
 
